@@ -12,7 +12,9 @@ open PgVerif PgVerif.Spec.Search PgVerif.Model.SearchRe
 
 def words : List String :=
   ["alice", "Bob", "API_KEY", "sk_live", "token", "Secret", "pass", "x", "user42", "2024-01-15", "a@b.com", "id",
-   "NULL", "true", "12", "admin", "Zed", "key", "value", "007", "ab", "AB", "hello world", "false", "nil", "1.5", "-1"]
+   "NULL", "true", "12", "admin", "Zed", "key", "value", "007", "ab", "AB", "hello world", "false", "nil", "1.5", "-1",
+   -- what pgread's decoder makes of a bytea value: the text `\\x<hex>` (a string, not a Go []byte)
+   "\\xdeadbeef", "\\x736b5f6c697665"]
 
 def seps : List String := [" ", "-", "_", ":", "/", "", ",", "="]
 
@@ -253,5 +255,59 @@ def genTokenCtx (kind : String) : Gen (Bytes × Nat) := do
   | "github2" => return (strBytes "ghp_" ++ (← alnumChars 36), 0)
   | "npm2" => return (strBytes "npm_" ++ (← alnumChars 36), 0)
   | _ => return ((← genToken kind), 0)
+
+/-! ### what is planted, and what the real detectors make of it (REVIEW.md D6)
+
+`variant` 0 = the credential as is (with its keyword context for the keyword-context kinds); 1 = glued to a word
+character on the left (`x` in front); 2 = glued on the right (`Zq9` behind); 3 = the bare secret without its keyword
+context (only different from 0 for the keyword-context kinds).  What trufflehog's detector of that kind reports on a text
+holding the planted text was observed on the real scanner (boundary-anchored regexes reject a glued token, greedy
+classes swallow the suffix, `PrefixRegex` kinds need their keyword within reach) and is re-checked by the Go handler on
+every cell text of every case. -/
+
+structure Planted where
+  /-- the text put into the cell -/
+  needle : Bytes
+  /-- the `Raw` the detector reports on a text that holds the needle; `none` = it reports nothing -/
+  raw : Option Bytes
+  /-- the detector's pre-filter keyword -/
+  keyword : Bytes
+  /-- the bare secret (what a context-aware scan would report) -/
+  secret : Bytes
+  /-- the case lies in the class of finding C15-secret-keyword-outside-cell -/
+  kf : Bool
+deriving Inhabited
+
+def keywordOf (kind : String) : String :=
+  match kind with
+  | "stripe" => "k_live" | "slack" => "xoxb-" | "gitlab" => "glpat-" | "digitalocean" => "dop_v1_" | "doppler" => "dp.pt."
+  | "sendgrid" => "SG." | "heroku1" => "heroku" | "npm1" => "npm" | "circle1" => "circle" | "buildkite1" => "buildkite"
+  | "typeform1" => "typeform" | "github2" => "ghp_" | "npm2" => "npm_" | _ => ""
+
+/-- glued on the left: does the detector still report the secret? -/
+def gluedLeftFound (kind : String) : Bool :=
+  ["stripe", "slack", "heroku1", "npm1", "circle1", "buildkite1", "typeform1", "npm2"].contains kind
+
+/-- glued on the right (`Zq9`): 0 = nothing reported, 1 = the secret, 2 = the secret grown by the suffix -/
+def gluedRightResult (kind : String) : Nat :=
+  if ["circle1", "npm2"].contains kind then 1
+  else if ["stripe", "slack", "doppler", "sendgrid", "github2"].contains kind then 2
+  else 0
+
+def gluedSuffix : Bytes := strBytes "Zq9"
+
+def genPlanted (kind : String) (variant : Nat) : Gen Planted := do
+  let (text, ctx) ← genTokenCtx kind
+  let sec := text.drop ctx
+  let kw := strBytes (keywordOf kind)
+  match variant % 4 with
+  | 1 => return { needle := 120 :: text, raw := if gluedLeftFound kind then some sec else none, keyword := kw, secret := sec, kf := false }
+  | 2 =>
+    let r := match gluedRightResult kind with | 0 => none | 1 => some sec | _ => some (sec ++ gluedSuffix)
+    return { needle := text ++ gluedSuffix, raw := r, keyword := kw, secret := sec, kf := false }
+  | 3 =>
+    if ctx > 0 then return { needle := sec, raw := some sec, keyword := kw, secret := sec, kf := true }
+    else return { needle := text, raw := some sec, keyword := kw, secret := sec, kf := false }
+  | _ => return { needle := text, raw := some sec, keyword := kw, secret := sec, kf := false }
 
 end PgVerif.Gen.Search
